@@ -20,8 +20,12 @@ RULE = ("random plasmas of 1-6 species (neutrals, bare nuclei, isotopes, element
         "n in 1e14..1e22, T in 0.1..1e4; one model per case (exc / rec / tcx / trp / brems / radfn), one route (direct, "
         "attached through plasma.models, Ray.trace through a uniform slab) and one scenario (all-positive, or exactly one "
         "guarded quantity zero/negative, or a zero coefficient); line windows cover every component by >= 12 sigma for all "
-        "six line-shape classes, continuum windows are arbitrary; a case is non-trivial when a deciding comparison ran on a "
-        "non-zero expected emission or on a hostile (guard) input; distinct = distinct case descriptors")
+        "six line-shape classes, continuum windows are arbitrary; 15 % of the cases are sequences: one plasma + one model instance "
+        "(direct or attached) lives through 3-8 legal changes (evaluation point on sign-changing profiles, provider via "
+        "plasma.atomic_data / model.atomic_data, electron distribution, species replaced / added / removed, Bremsstrahlung "
+        "gaunt_factor) and is re-judged against the current state after every change; a case is non-trivial when a deciding "
+        "comparison ran on a non-zero expected emission or on a hostile (guard) input (sequences: a non-zero emission after at "
+        "least one change); distinct = distinct case descriptors")
 LEVEL_TEXT = ("Exploration by runtime reference-model monitoring with an argument recorder: each generated configuration is "
               "executed by the real models and compared with the documented expressions evaluated independently on the "
               "recorded plasma state; right level because the property quantifies over continuous plasma states and "
@@ -30,7 +34,8 @@ LEVEL_NOTE = ("trusted: the closed-form expressions and CODATA-2018 constants in
               "(inputs, not code under test), line-component positions taken from the documented line-shape physics only to "
               "size the windows")
 TECHNIQUE = ("runtime monitoring: per-call reference-model oracle + recording mock atomic-data provider (argument recorder) "
-             "+ metamorphic linearity/additivity monitors over generated and hostile plasma states")
+             "+ metamorphic linearity/additivity monitors over generated and hostile plasma states + history monitor (one model "
+             "instance across state changes, judged against the current state, evaluations attributed to the current provider)")
 ASSUMPTIONS = ["for thermal CX with several donors, a donor with non-positive density or temperature must contribute nothing and "
                "the remaining eligible donors still contribute (the documented total is a sum over donors; the zero clause is "
                "read per term)",
@@ -43,7 +48,7 @@ ASAN_MODULES = ['cherab.core.model.plasma.impact_excitation', 'cherab.core.model
 ASAN = dict(cases=1500, workers=8, timecap=240)
 QUICK = dict(cases=2000, workers=2, timecap=35)
 THOROUGH = dict(cases=200000, workers=16, timecap=600)
-REQUIRED = {"total": 200, "rate_args": 200, "guard": 80, "nonneg": 200, "linearity": 100, "additivity": 30,
+REQUIRED = {"seq_evals": 400, "seq_nonzero_after_change": 150, "total": 200, "rate_args": 200, "guard": 80, "nonneg": 200, "linearity": 100, "additivity": 30,
             "brems_bins": 100, "trp_bins": 50, "radfn_bins": 5}
 
 # own CODATA-2018 constants (REFMATH)
@@ -110,6 +115,9 @@ def _extra_species(rng, have, uniform, count, hostile_ok=True, exclude=()):
 
 
 def gen_case(rng, tier):
+    r = rng.random()
+    if r < 0.15:
+        return _gen_seq(rng)
     r = rng.random()
     kind = ("exc" if r < 0.17 else "rec" if r < 0.34 else "tcx" if r < 0.56 else "trp" if r < 0.74 else
             "brems" if r < 0.97 else "radfn")
@@ -412,14 +420,20 @@ def fixed_cases(tier):
 # ------------------------------------------------------------------------------------------------------------------
 
 class Prof:
-    """f(r) = scale * v * exp(g . (r - r0)); f(r0) = scale * v exactly."""
+    """f(r) = scale * v * shape(g . (r - r0)), shape = exp (default), 1 + a ("lin": changes sign) or max(0, 1 + a)
+    ("clip": exact zeros); f(r0) = scale * v exactly."""
 
-    def __init__(self, v, g, r0):
-        self.v, self.g, self.r0, self.scale = float(v), tuple(g), tuple(r0), 1.0
+    def __init__(self, v, g, r0, kind="exp"):
+        self.v, self.g, self.r0, self.scale, self.kind = float(v), tuple(g), tuple(r0), 1.0, kind
 
     def __call__(self, x, y, z):
         g, r0 = self.g, self.r0
-        return self.scale * self.v * math.exp(g[0] * (x - r0[0]) + g[1] * (y - r0[1]) + g[2] * (z - r0[2]))
+        a = g[0] * (x - r0[0]) + g[1] * (y - r0[1]) + g[2] * (z - r0[2])
+        if self.kind == "exp":
+            return self.scale * self.v * math.exp(a)
+        if self.kind == "lin":
+            return self.scale * self.v * (1.0 + a)
+        return self.scale * self.v * max(0.0, 1.0 + a)
 
 
 def _tr_key(tr):
@@ -813,16 +827,9 @@ def _linearity(case, ctx, scene, model, window, got, kind, exact, rtol=None):
 # total radiated power
 # ------------------------------------------------------------------------------------------------------------------
 
-def _run_trp(case, ctx):
-    from cherab.core.model import TotalRadiatedPower
-    scen, seed = case["scenario"], case["seed"]
-    scene = Scene(case)
-    st = scene.state()
-    el, q = case["elem"]["el"], case["elem"]["q"]
-    model = TotalRadiatedPower(_element(el), q)
-    scene.attach(model)
-    window = case["window"]
-    got, path = scene.observe(model, window)
+def _trp_power_density(case, st):
+    """Documented three-term power density [W/m^3] for the state `st`; None when the statement is silent."""
+    seed, el, q = case["seed"], case["elem"]["el"], case["elem"]["q"]
     zero = set((f, tuple(k)) for f, k in case["zero_keys"])
     ne, te = st["ne"], st["te"]
     ni = nu = None
@@ -834,10 +841,8 @@ def _run_trp(case, ctx):
             nu = st["n"][i]
         if sp["el"] in HYD and sp["q"] == 0:
             hyd.append(st["n"][i])
-    detail = dict(route=case["route"], scenario=scen)
     if hyd and min(hyd) < 0 < max(hyd):
-        ctx.skip("hydrogen-isotope neutral densities of mixed sign (statement silent)")
-        return
+        return None
     nhyd = sum(hyd)
     pd = 0.0
     if ne > 0 and te > 0:
@@ -847,6 +852,25 @@ def _run_trp(case, ctx):
             pd += M.rate_value(seed, "prb", (el, q + 1), (ne, te), ("prb", (el, q + 1)) in zero) * ne * nu
         if nu > 0 and nhyd > 0:
             pd += M.rate_value(seed, "prc", (el, q + 1), (ne, te), ("prc", (el, q + 1)) in zero) * nhyd * nu
+    return pd
+
+
+def _run_trp(case, ctx):
+    from cherab.core.model import TotalRadiatedPower
+    scen, seed = case["scenario"], case["seed"]
+    scene = Scene(case)
+    st = scene.state()
+    el, q = case["elem"]["el"], case["elem"]["q"]
+    model = TotalRadiatedPower(_element(el), q)
+    scene.attach(model)
+    window = case["window"]
+    got, path = scene.observe(model, window)
+    ne, te = st["ne"], st["te"]
+    detail = dict(route=case["route"], scenario=scen)
+    pd = _trp_power_density(case, st)
+    if pd is None:
+        ctx.skip("hydrogen-isotope neutral densities of mixed sign (statement silent)")
+        return
     want = pd / (4 * math.pi * (window["max"] - window["min"])) * path
     key = "trp:total" if scen in ("positive", "zero-rate") else "trp:guard:%s" % scen
     if not ctx.check(bool(np.all(np.isfinite(got))), "trp:non-finite", "non-finite sample", monitor="nonneg", **detail):
@@ -1004,6 +1028,8 @@ def run_case(case, ctx):
     kind = case["kind"]
     ctx.cls(kind)
     ctx.cls("route:" + case["route"])
+    if kind == "seq":
+        return _run_seq(case, ctx)
     ctx.cls("%s:%s" % (kind, case["scenario"]))
     if kind in LINE_KINDS:
         _run_line(case, ctx)
@@ -1013,3 +1039,369 @@ def run_case(case, ctx):
         _run_brems(case, ctx)
     else:
         _run_radfn(case, ctx)
+
+
+# ------------------------------------------------------------------------------------------------------------------
+# one model instance across state changes ("seq"): the documented expression must hold for the CURRENT state after
+# every legal change made between evaluations (evaluation point, provider, composition, electrons, Gaunt factor)
+# ------------------------------------------------------------------------------------------------------------------
+
+SEQ_SHAPES = ("gaussian", "zeeman_triplet", "param_zeeman")     # constructor arguments independent of the wavelength
+SEQ_REQUIRED = dict(exc=lambda e, q: {(e, q)}, rec=lambda e, q: {(e, q + 1)}, tcx=lambda e, q: {(e, q + 1)},
+                    trp=lambda e, q: {(e, q), (e, q + 1)})
+
+
+def _pkind(rng):
+    r = rng.random()
+    return "exp" if r < 0.5 else ("lin" if r < 0.85 else "clip")
+
+
+def _seq_species(rng, el, q, hostile):
+    sp = _species(rng, el, q, False)
+    sp["pk"] = _pkind(rng)
+    sp["pkt"] = "exp" if rng.random() < 0.8 else "lin"
+    if rng.random() < hostile:
+        if rng.random() < 0.6:
+            sp["n"] = _nonpos(rng, sp["n"])
+        else:
+            sp["t"] = _nonpos(rng, sp["t"])
+    return sp
+
+
+def _gen_seq(rng):
+    m = ("exc", "rec", "tcx", "trp", "brems")[int(rng.integers(5))]
+    route = "direct" if rng.random() < 0.5 else "attached"
+    case = dict(kind=m, route=route, seed=int(rng.integers(1, 2 ** 31)),
+                pt=[float(x) for x in rng.uniform(-0.4, 0.4, size=3)], dir=[float(x) for x in rng.normal(size=3)],
+                ne=_logu(rng, 14, 22), te=_logu(rng, -1, 4), gne=_grad(rng, False), gte=_grad(rng, False),
+                b=[0.0, 0.0, 0.0] if rng.random() < 0.3 else [float(x) for x in rng.normal(size=3) * _logu(rng, -2, 1)],
+                scenario="positive", zero_keys=[], prefill=False, lin=None)
+    if m in LINE_KINDS:
+        _gen_line(rng, case, False)
+        ls = case["shape"]
+        name = ls["name"] if ls["name"] in SEQ_SHAPES else SEQ_SHAPES[int(rng.integers(3))]
+        case["shape"] = dict(name=name, margin=ls["margin"], bins=min(ls["bins"], 200))
+        if name == "param_zeeman":
+            case["shape"]["params"] = [_logu(rng, -2.5, -1), float(rng.uniform(0, 1.5)), float(rng.uniform(-0.5, 0.5))]
+        required = SEQ_REQUIRED[m](case["line"]["el"], case["line"]["q"])
+    elif m == "trp":
+        _gen_trp(rng, case, False)
+        required = SEQ_REQUIRED[m](case["elem"]["el"], case["elem"]["q"])
+    else:
+        _gen_brems(rng, case, False)
+        case["gaunt"] = "argument" if rng.random() < 0.4 else "provider"
+        case["gseed"] = int(rng.integers(1, 2 ** 31))
+        case["integrator"] = "tight" if rng.random() < 0.5 else "fixed"
+        case["gte"] = [0.2 * x for x in case["gte"]]
+        required = set()
+    case.update(kind="seq", model=m, scenario="sequence", zero_keys=[], lin=None, prefill=False, r0=list(case["pt"]),
+                pkne=_pkind(rng), pkte="exp" if (m == "brems" or rng.random() < 0.8) else "lin")
+    for sp in case["species"]:
+        sp["pk"] = _pkind(rng)
+        sp["pkt"] = "exp" if rng.random() < 0.8 else "lin"
+    keys = [(sp["el"], sp["q"]) for sp in case["species"]]
+    roles = [sp.get("role") for sp in case["species"]]
+    ops = ["point"] * 3 + ["provider"] * 3 + ["electrons", "replace", "replace", "add", "remove"] + (["gaunt"] * 2 if m == "brems" else [])
+    steps = []
+    for _ in range(int(rng.integers(3, 9))):
+        op = ops[int(rng.integers(len(ops)))]
+        removable = [i for i, k in enumerate(keys) if k not in required]
+        if (op == "remove" and not removable) or (op == "replace" and not keys):
+            op = "point"
+        if op == "point":
+            steps.append(dict(op="point", pt=[float(x) for x in rng.uniform(-1, 1, size=3)], dir=[float(x) for x in rng.normal(size=3)]))
+        elif op == "provider":
+            via = "model" if (route == "direct" or rng.random() < 0.3) else "plasma"
+            steps.append(dict(op="provider", seed=int(rng.integers(1, 2 ** 31)), via=via))
+        elif op == "electrons":
+            st = dict(op="electrons", ne=_logu(rng, 14, 22), te=_logu(rng, -1, 4), gne=_grad(rng, False),
+                      gte=[(0.2 if m == "brems" else 1.0) * x for x in _grad(rng, False)], pkne=_pkind(rng), pkte="exp")
+            if rng.random() < 0.25:
+                k = "ne" if rng.random() < 0.5 else "te"
+                st[k] = _nonpos(rng, st[k])
+            steps.append(st)
+        elif op == "replace":
+            i = int(rng.integers(len(keys)))
+            sp = _seq_species(rng, keys[i][0], keys[i][1], 0.3)
+            if m == "trp" and keys[i][0] in HYD and keys[i][1] == 0 and sp["n"] < 0:
+                sp["n"] = 0.0          # no mixed-sign hydrogen neutrals
+                sp["pk"] = "exp"
+            if roles[i]:
+                sp["role"] = roles[i]
+            steps.append(dict(op="replace", i=i, sp=sp))
+        elif op == "add":
+            new = _extra_species(rng, set(keys), False, 1)
+            if not new:
+                continue
+            sp = _seq_species(rng, new[0]["el"], new[0]["q"], 0.15)
+            if m == "trp" and sp["el"] in HYD and sp["q"] == 0:
+                sp["n"], sp["pk"] = abs(sp["n"]), "exp"
+            if m == "tcx" and sp["q"] < ZNUM[sp["el"]]:
+                sp["role"] = "donor"
+            if m == "brems" and sp["q"] > 0:
+                sp["role"] = "ion"
+            keys.append((sp["el"], sp["q"]))
+            roles.append(sp.get("role"))
+            steps.append(dict(op="add", sp=sp))
+        elif op == "remove":
+            i = removable[int(rng.integers(len(removable)))]
+            keys.pop(i)
+            roles.pop(i)
+            steps.append(dict(op="remove", i=i))
+        else:
+            steps.append(dict(op="gaunt", seed=None if rng.random() < 0.4 else int(rng.integers(1, 2 ** 31))))
+    case["steps"] = steps
+    return case
+
+
+def _seq_state(cur, r0):
+    pt = cur["pt"]
+    ev = lambda v, g, k: Prof(v, g, r0, k)(*pt)
+    return dict(ne=ev(cur["ne"], cur["gne"], cur["pkne"]), te=ev(cur["te"], cur["gte"], cur["pkte"]),
+                n=[ev(sp["n"], sp["gn"], sp["pk"]) for sp in cur["species"]],
+                t=[ev(sp["t"], sp["gt"], sp["pkt"]) for sp in cur["species"]])
+
+
+def _seq_line_window(cur, st):
+    ln, ls = cur["line"], cur["shape"]
+    lam0 = M.wavelength_value(cur["seed"], (ln["el"], ln["q"], _tr_key(ln["tr"])))
+    ti = [i for i, sp in enumerate(cur["species"]) if sp.get("role") == "target"][0]
+    ts = st["t"][ti]
+    aw = _element(ln["el"]).atomic_weight
+    bmag = math.sqrt(sum(x * x for x in cur["b"]))
+    vmag = math.sqrt(sum(x * x for x in cur["species"][ti]["v"]))
+    sigma = math.sqrt(ts * E / (aw * AMU)) * lam0 / C if ts > 0 else 0.0
+    centres = [lam0]
+    if ls["name"] == "zeeman_triplet":
+        e0 = HC_EV_NM / lam0
+        centres += [HC_EV_NM / (e0 - MUB * bmag), HC_EV_NM / (e0 + MUB * bmag)]
+    elif ls["name"] == "param_zeeman":
+        al, be, ga = ls["params"]
+        centres += [lam0 + 0.5 * al * bmag, lam0 - 0.5 * al * bmag]
+        if ts > 0:
+            sigma *= math.sqrt(1.0 + be * be * ts ** (2.0 * ga))
+    half = ls["margin"] * sigma + 1e-3
+    return dict(min=min(centres) * (1.0 - vmag / C) - half, max=max(centres) * (1.0 + vmag / C) + half, bins=ls["bins"])
+
+
+def _seq_brems_window(base, te):
+    if te <= 0:
+        return dict(base)
+    a = HC_EV_NM / te
+    lam0 = max(base["min"], a / 250.0)
+    width = base["max"] - base["min"]
+    s = (width / base["bins"] / lam0) * max(abs(a / lam0 - 2.0), 2.0)
+    if s > 1.5:
+        width *= 1.5 / s
+    return dict(min=lam0, max=lam0 + width, bins=base["bins"])
+
+
+def _run_seq(case, ctx):
+    from raysect.core import Point3D, Vector3D
+    from raysect.optical import Spectrum
+    from raysect.primitive import Box
+    from cherab.core import Plasma, Species, Maxwellian
+    from cherab.core import model as cm
+    from cherab.core.atomic import Line
+    from cherab.core.math.integrators import GaussianQuadrature
+    m, route, r0 = case["model"], case["route"], case["r0"]
+    ctx.cls("seq:" + m)
+    cur = dict(kind=m, route=route, seed=case["seed"], pt=list(case["pt"]), dir=list(case["dir"]), b=case["b"], zero_keys=[],
+               ne=case["ne"], te=case["te"], gne=case["gne"], gte=case["gte"], pkne=case["pkne"], pkte=case["pkte"],
+               species=[dict(sp) for sp in case["species"]], scenario="sequence")
+    for k in ("line", "shape", "elem"):
+        if k in case:
+            cur[k] = case[k]
+    providers = {}
+
+    def prov(seed):
+        if seed not in providers:
+            providers[seed] = M.make_provider(seed)
+        return providers[seed]
+
+    def mk_species(sp):
+        el = _element(sp["el"])
+        return Species(el, sp["q"], Maxwellian(Prof(sp["n"], sp["gn"], r0, sp["pk"]), Prof(sp["t"], sp["gt"], r0, sp["pkt"]),
+                                               Vector3D(*sp["v"]), el.atomic_weight * AMU))
+
+    def mk_electrons():
+        return Maxwellian(Prof(cur["ne"], cur["gne"], r0, cur["pkne"]), Prof(cur["te"], cur["gte"], r0, cur["pkte"]),
+                          Vector3D(0, 0, 0), ME)
+
+    plasma = Plasma()
+    plasma.electron_distribution = mk_electrons()
+    plasma.b_field = Vector3D(*case["b"])
+    live = [mk_species(sp) for sp in cur["species"]]
+    plasma.composition = live
+    gaunt_src = None
+    if m in LINE_KINDS:
+        ln, ls = case["line"], case["shape"]
+        cls = {"gaussian": cm.GaussianLine if case["seed"] % 2 else None, "zeeman_triplet": cm.ZeemanTriplet,
+               "param_zeeman": cm.ParametrisedZeemanTriplet}[ls["name"]]
+        kwargs = dict(line_parameters=tuple(ls["params"])) if ls["name"] == "param_zeeman" else {}
+        mk = dict(exc=cm.ExcitationLine, rec=cm.RecombinationLine, tcx=cm.ThermalCXLine)[m]
+        model = mk(Line(_element(ln["el"]), ln["q"], tuple(ln["tr"])), lineshape=cls, lineshape_kwargs=kwargs)
+    elif m == "trp":
+        model = cm.TotalRadiatedPower(_element(case["elem"]["el"]), case["elem"]["q"])
+    else:
+        integ = GaussianQuadrature(relative_tolerance=1e-10, min_order=4) if case["integrator"] == "tight" else \
+            GaussianQuadrature(min_order=24, max_order=24)
+        if case["gaunt"] == "argument":
+            gaunt_src = case["gseed"]
+        model = cm.Bremsstrahlung(gaunt_factor=prov(gaunt_src).MockGaunt() if gaunt_src is not None else None, integrator=integ)
+    if route == "direct":
+        model.plasma = plasma
+        model.atomic_data = prov(cur["seed"])
+    else:
+        plasma.geometry = Box(Point3D(-2, -2, -2), Point3D(2, 2, 2))
+        plasma.atomic_data = prov(cur["seed"])
+        plasma.models = [model]
+
+    what = "initial"
+    changed = False
+    for k in range(len(case["steps"]) + 1):
+        if k > 0:
+            stp = case["steps"][k - 1]
+            op = stp["op"]
+            if op == "point":
+                cur["pt"], cur["dir"] = list(stp["pt"]), list(stp["dir"])
+                what = "point"
+            elif op == "provider":
+                if stp["via"] == "plasma":
+                    plasma.atomic_data = prov(stp["seed"])
+                else:
+                    model.atomic_data = prov(stp["seed"])
+                cur["seed"] = stp["seed"]
+                what = "provider:" + stp["via"]
+            elif op == "electrons":
+                for f in ("ne", "te", "gne", "gte", "pkne", "pkte"):
+                    cur[f] = stp[f]
+                plasma.electron_distribution = mk_electrons()
+                what = "electrons"
+            elif op == "replace":
+                cur["species"][stp["i"]] = dict(stp["sp"])
+                live[stp["i"]] = mk_species(stp["sp"])
+                plasma.composition.add(live[stp["i"]])
+                what = "replace-species"
+            elif op == "add":
+                cur["species"].append(dict(stp["sp"]))
+                live.append(mk_species(stp["sp"]))
+                plasma.composition.add(live[-1])
+                what = "add-species"
+            elif op == "remove":
+                cur["species"].pop(stp["i"])
+                live.pop(stp["i"])
+                plasma.composition = list(live)
+                what = "remove-species"
+            else:
+                gaunt_src = stp["seed"]
+                model.gaunt_factor = prov(gaunt_src).MockGaunt() if gaunt_src is not None else None
+                what = "gaunt-factor"
+            changed = True
+            ctx.cls("seq-step:" + what)
+        for p in providers.values():
+            del p.events[:]
+        st = _seq_state(cur, r0)
+        if m in LINE_KINDS:
+            window = _seq_line_window(cur, st)
+            if window["min"] < 2.0:
+                ctx.skip("line window would reach non-positive wavelengths")
+                continue
+        elif m == "trp":
+            window = case["window"]
+        else:
+            window = _seq_brems_window(case["window"], st["te"])
+        out = model.emission(Point3D(*cur["pt"]), Vector3D(*cur["dir"]), Spectrum(window["min"], window["max"], window["bins"]))
+        got = np.array(out.samples, dtype=float)
+        if not _seq_judge(ctx, m, cur, st, window, got, what, k, providers, gaunt_src, changed):
+            return
+
+
+def _seq_judge(ctx, m, cur, st, window, got, what, k, providers, gaunt_src, changed):
+    """Compare one evaluation with the documented expression for the current state; False stops the sequence."""
+    key = "sequence:%s:stale-after:%s" % (m, what) if what != "initial" else "sequence:%s:initial" % m
+    detail = dict(step=k, after=what, route=cur["route"])
+    ne, te = st["ne"], st["te"]
+    P = providers[cur["seed"]]
+    if not np.all(np.isfinite(got)):
+        ctx.viol("sequence:%s:non-finite-after:%s" % (m, what), "non-finite sample", **detail)
+        return False
+    msg = ("emission of a model instance that lived through a change of %s differs from the documented expression evaluated "
+           "for the current state" % what) if what != "initial" else "emission differs from the documented expression"
+    dl = (window["max"] - window["min"]) / window["bins"]
+    ok = True
+    if m in LINE_KINDS:
+        want, _, _ = _line_oracle(cur, st)
+        total = float(got.sum() * dl)
+        if want == 0.0:
+            ok = ctx.check(bool(np.all(got == 0.0)), key, msg, monitor="seq_steps", got=total, want=0.0, **detail)
+        else:
+            ok = ctx.close(total, want, key, msg, rtol=1e-9, monitor="seq_steps", **detail)
+            ok = ctx.check(bool(got.min() >= -1e-12 * float(np.abs(got).max())), key, "negative spectral sample", monitor="nonneg",
+                           **detail) and ok
+    elif m == "trp":
+        pd = _trp_power_density(cur, st)
+        if pd is None:
+            ctx.skip("hydrogen-isotope neutral densities of mixed sign (statement silent)")
+            return True
+        want = pd / (4 * math.pi * (window["max"] - window["min"]))
+        if want == 0.0:
+            ok = ctx.check(bool(np.all(got == 0.0)), key, msg, monitor="seq_steps", max_sample=float(np.abs(got).max()), **detail)
+        else:
+            ok = ctx.close(got, np.full(got.size, want), key, msg, rtol=1e-12, monitor="seq_steps", **detail)
+    else:
+        ions = [(float(sp["q"]), st["n"][i]) for i, sp in enumerate(cur["species"]) if sp["q"] > 0 and st["n"][i] > 0]
+        if ne <= 0 or te <= 0 or not ions:
+            want = 0.0
+            ok = ctx.check(bool(np.all(got == 0.0)), key, msg, monitor="seq_steps", max_sample=float(np.abs(got).max()), **detail)
+        else:
+            gs = gaunt_src if gaunt_src is not None else cur["seed"]
+            wantv = _brems_bin_average(window, ne, te, ions, lambda z, t, x: M.gaunt_value(gs, z, t, x))
+            want = float(wantv.max())
+            ok = ctx.close(got, wantv, key, msg, rtol=1e-7, atol=1e-300, monitor="seq_steps", **detail)
+    ctx.mon("seq_evals")
+    if changed and (np.any(got != 0.0) or want != 0.0):
+        ctx.nontrivial()
+        ctx.mon("seq_nonzero_after_change")
+    if not ok:
+        return False
+    # recorded evaluations must belong to the current provider(s) and carry the current plasma values
+    current = {cur["seed"]} | ({gaunt_src} if gaunt_src is not None else set())
+    for seed, p in providers.items():
+        if seed in current:
+            continue
+        stale = [e for e in p.events if e[0] == "eval"]
+        if not ctx.check(not stale, "sequence:%s:foreign-provider-evaluated-after:%s" % (m, what),
+                         "a coefficient object of a provider that is no longer the model's atomic data source was evaluated",
+                         monitor="rate_args", family=stale[0][1] if stale else None, **detail):
+            return False
+    pre = "sequence:" + m
+    if m in ("exc", "rec"):
+        ln = cur["line"]
+        _check_rate_args(ctx, P, m, (ln["el"], ln["q"], _tr_key(ln["tr"])), (ne, te), pre, detail)
+    elif m == "tcx":
+        ln = cur["line"]
+        bykey = {(sp["el"], sp["q"], ln["el"], _tr_key(ln["tr"])): i for i, sp in enumerate(cur["species"])}
+        for kk, calls in _events(P, "tcx").items():
+            if kk not in bykey:
+                ctx.viol(pre + ":rate-key:tcx", "thermal CX coefficient evaluated for a donor that is not in the plasma: %r" % (kk,), **detail)
+                return False
+            arr = np.array(calls, dtype=float)
+            ctx.close(arr, np.broadcast_to(np.array((ne, te, st["t"][bykey[kk]])), arr.shape), pre + ":rate-args:tcx",
+                      "thermal CX coefficient evaluated at arguments other than (n_e, T_e, T_donor) of the current state",
+                      rtol=1e-14, monitor="rate_args", **detail)
+    elif m == "trp":
+        el, q = cur["elem"]["el"], cur["elem"]["q"]
+        for fam, kk in (("plt", (el, q)), ("prb", (el, q + 1)), ("prc", (el, q + 1))):
+            _check_rate_args(ctx, P, fam, kk, (ne, te), pre, detail)
+    else:
+        src = providers[gaunt_src] if gaunt_src is not None else P
+        calls = np.array([e[3] for e in src.events if e[0] == "eval" and e[1] == "gaunt"], dtype=float)
+        if calls.size:
+            ctx.check(bool(np.all(calls[:, 1] == te)), pre + ":gaunt-args", "Gaunt factor evaluated at a temperature other than the "
+                      "electron temperature of the current state", monitor="rate_args", **detail)
+        if gaunt_src is not None:
+            ctx.check(not [e for e in P.events if e[0] == "eval" and e[1] == "gaunt"], pre + ":gaunt-source-after:%s" % what,
+                      "the provider's Gaunt factor was evaluated although a Gaunt factor was supplied to the model",
+                      monitor="rate_args", **detail)
+    return True
